@@ -35,6 +35,10 @@ def readbacks(r):
         rb["vc"] = st.sample(s["vc"], grid="control" if d["vc"] == "control+" else "control-")[1]
     if d["pc"]:
         rb["pc"] = st.sample(s["pc"], grid="control" if d["pc"] == "control+" else "control-")[1]
+    if d["pc"] == "both":
+        rb["pcq"] = st.sample(s["pcq"], grid="control")[1]
+    if d["vc"] == "both":
+        rb["vcq"] = st.sample(s["vcq"], grid="control")[1]
     if d["pg"]:
         rb["pg"] = st.value(s["pg"])
     rb["DTc"] = st.sample(st.DT_control, grid="control")[1]
@@ -218,6 +222,8 @@ def compare_case(d, want=("rows", "obj"), full_alphabet=True, return_rows=False)
         if d["pc"]:
             if not NL.close(q["pc"].reshape(-1), tr.pc, 1e-12):
                 res.add("param:pc", "value", "%s vs %s" % (q["pc"].reshape(-1), tr.pc))
+        if d["pc"] == "both" and not NL.close(q["pcq"].reshape(-1), tr.pcq, 1e-12):
+            res.add("param:pcq", "value", "%s vs %s" % (q["pcq"].reshape(-1), tr.pcq))
         if d["pg"]:
             if not NL.close(np.asarray(q["pg"]).reshape(-1, order="F"), np.asarray(tr.pg).reshape(-1, order="F"), 1e-12):
                 res.add("param:pg", "value", "")
@@ -233,7 +239,7 @@ def compare_case(d, want=("rows", "obj"), full_alphabet=True, return_rows=False)
     return res
 
 
-LABEL_KEYS = ("X", "U", "Xi", "Xr", "Zr", "vg", "vc")
+LABEL_KEYS = ("X", "U", "Xi", "Xr", "Zr", "vg", "vc", "vcq")
 
 
 def label_solve(nlp, q, keys=LABEL_KEYS, base=None):
